@@ -27,6 +27,9 @@ def run(ctx, rep):
     exceptions.rule_uncaught_keeps_name(ctx, rep, "C07-R9")
     exceptions.rule_call_stack_not_cut_in_cleanup(ctx, rep, "C07-R10")
     exceptions.rule_nested_throw_keeps_value(ctx, rep, "C07-R11")
+    from ..rules import operators
+
+    operators.rule_arithmetic_conversion_agrees(ctx, rep, "C07-R12")
     rep.undecided += [
         "the ordered log of catch/finally execution for all programs",
         "that reported line/column values are the right numbers",
